@@ -156,6 +156,17 @@ CLAIMED = {
             'same scheduler trusted base as C04 (in particular: races that need a switch inside one bytecode sequence, e.g. a lock-free '
             'shared generator, are not generated); early stop only for results that are Stoppable themselves.',
             '§2.2, §3 C13'),
+    'C15': ('exploration',
+            'generated protocol histories (init / next_batch / re-init / stop_prefetch / shutdown) x generated thread schedules on the deterministic scheduler; sequence oracle over the answers',
+            'A real PrefetchedCourierServer runs with its threading/time rebound to the deterministic scheduler; a virtual client '
+            'thread initialises generator A (length 0..6, return value, optional failure position), requests batches of size 0..4 with '
+            'prefetch sizes 1..3, optionally re-initialises with generator B mid-stream while a second virtual thread may call '
+            'stop_prefetch or request shutdown at a schedule-chosen point. The answers must concatenate to exactly the generator\'s '
+            'elements in order, each once, followed by exactly one terminal marker (StopIteration(ret) or the generator\'s own '
+            'exception after all elements produced before it), never mix two generators after a re-init returned, end with a '
+            'retriable TimeoutError after stop/shutdown, and no request may block forever (structural deadlock detection).',
+            'same scheduler trusted base as C04; handlers are called directly, one client per generator at a time.',
+            '§2.2, §3 C15'),
 }
 
 PENDING_REASON = 'check not built yet in this session (work in progress; see DESIGN.md §9 build order) - not claimed until its check exists'
